@@ -42,9 +42,16 @@ def vec_queries(Query, ops, cfgs, timeout=300, unwind=14):
                             bounds=dict(N=d['VF_N'], size_max=d.get('VF_CMAX', d['VF_N'] + 3), capacity_max=d.get('VF_CMAX', d['VF_N'] + 3), count_max=3, values='8-bit')))
     return qs
 
+ALL_OPS = VEC_OPS_UNARY + VEC_OPS_CTOR + VEC_OPS_BINARY
+
 def plan(pid, tier, Query):
     quick = tier == 'quick'
+    if tier.startswith('survey'):
+        cfgs = {'survey1': [vec_cfg(1, 2, 'X', ak=2, cls=0), vec_cfg(1, 2, 'X', ak=2, cls=1)],
+                'survey2': [vec_cfg(0, 0, 'B'), vec_cfg(2, 3, 'R'), vec_cfg(1, 3, 'R', ak=0), vec_cfg(0, 0, 'X', ak=1)],
+                'survey3': [vec_cfg(1, 4, 'W', ak=1, s='uint16_t'), vec_cfg(1, 3, 'T3', ak=2, s='int8_t'), vec_cfg(2, 3, 'X')]}[tier]
+        return vec_queries(Query, ALL_OPS, cfgs, timeout=600)
     if pid in ('C01', 'C02', 'C05', 'C06', 'C07'):
         cfgs = [vec_cfg(1, 2, 'B')]
-        return vec_queries(Query, VEC_OPS_UNARY + VEC_OPS_CTOR + VEC_OPS_BINARY, cfgs)
+        return vec_queries(Query, ALL_OPS, cfgs)
     return []
